@@ -351,7 +351,7 @@ def get_switched_peak_array_indices(values, tol=0.0):
         peak_indices_set.append(i)
 
     switched_peak_indices = np.take(peak_indices, new_peak_indices)
-    return switched_peak_indices
+    return np.unique(switched_peak_indices)
 
 
 def determine_pseudo_cyclic_peak_only_series(values):
